@@ -36,6 +36,7 @@ import (
 
 type Reader struct {
 	reader    io.Reader
+	contract  contractReader
 	buffer    []byte
 	bytesRead uint64
 	config    *configuration.Configuration
@@ -53,8 +54,44 @@ func (_this *Reader) Init(config *configuration.Configuration) {
 }
 
 func (_this *Reader) SetReader(reader io.Reader) {
-	_this.reader = reader
+	_this.contract = contractReader{reader: reader}
+	_this.reader = &_this.contract
 }
+
+// contractReader adapts an arbitrary io.Reader to the narrower behaviour the
+// decoding code (and the byte-at-a-time decoders it delegates to) relies on:
+// every Read returns either at least one byte and a nil error, or no bytes and
+// a non-nil error. The io.Reader contract also allows (0, nil) and
+// (n > 0, err), e.g. a final read that returns data together with io.EOF.
+type contractReader struct {
+	reader io.Reader
+	err    error
+}
+
+func (_this *contractReader) Read(p []byte) (int, error) {
+	if len(p) == 0 {
+		return 0, nil
+	}
+	if _this.err != nil {
+		return 0, _this.err
+	}
+	for emptyReads := 0; emptyReads < maxConsecutiveEmptyReads; emptyReads++ {
+		n, err := _this.reader.Read(p)
+		if n > 0 {
+			// Hand over the data now and the error on the next call.
+			_this.err = err
+			return n, nil
+		}
+		if err != nil {
+			_this.err = err
+			return 0, err
+		}
+	}
+	_this.err = io.ErrNoProgress
+	return 0, _this.err
+}
+
+const maxConsecutiveEmptyReads = 100
 
 func (_this *Reader) ReadUint8() uint8 {
 	if _, err := _this.reader.Read(_this.buffer[:1]); err != nil {
